@@ -24,7 +24,7 @@ COMPONENTS = {"real": ["pyjelly serializers of both integrations", "protobuf upb
               "stub": ["reader: simkit.wire + simkit.refdec (independent codec and spec state machine)"]}
 ASSUMPTIONS = ["the reference decoder's reading of rdf.proto (DESIGN.md section 3)",
                "inputs and configurations are sampled"]
-PROBES = ["direct_bad_statement_rejected", "direct_statement_refused", "direct_stream_runs", "direct_preset_mismatch", "direct_ns_refused", "shared_stream_writes", "evictions", "ns_streams", "rdflib_streams", "generic_streams", "physical_GRAPHS",
+PROBES = ["direct_graph_runs", "direct_graph_interrupted", "direct_graph_refused_after_interruption", "direct_bad_statement_rejected", "direct_statement_refused", "direct_stream_runs", "direct_preset_mismatch", "direct_ns_refused", "shared_stream_writes", "evictions", "ns_streams", "rdflib_streams", "generic_streams", "physical_GRAPHS",
           "zero_name_ids", "zero_prefix_ids", "zero_entry_ids"]
 SHRINK_LISTS = ["ops"]
 
@@ -52,6 +52,7 @@ def gen_direct(rng, run, tier):
     cfg["ns"] = rng.random() < 0.5
     # the preset written into the options object: the encoder's own, the library default, or another one
     cfg["options_preset"] = rng.choice(["same", "same", "default", "smaller", "larger"])
+    cfg["skip_enroll"] = rng.random() < 0.3
     ops = [["stmt", *T.to_json(st)] for st in stmts]
     for p_, i_ in nss:
         ops.insert(rng.randint(0, len(ops)), ["ns", p_, i_])
@@ -110,7 +111,8 @@ def write_direct(cfg, ops, sim):
     n_stmt = -1
     try:
         stream = cls(encoder=Enc(lookup_preset=enc_preset), options=options)
-        stream.enroll()
+        if not cfg.get("skip_enroll"):
+            stream.enroll()         # otherwise: straight to the statement / declaration methods, as a caller may
     except Exception as e:  # noqa: BLE001
         if how == "same":
             raise
@@ -216,9 +218,121 @@ def c02_holds(st):
     return c15.neutral_as_rdflib_holds(st)
 
 
+def gen_direct_graphs(rng, run, tier):
+    """GraphStream.graph() driven directly, one call per run of equal graph names; the iterator that supplies a
+    graph's triples may fail half way (the caller's data source breaks) or the caller may stop consuming the
+    frames of a graph and close the generator; the caller then carries on with the next graph."""
+    integration = rng.choice(["generic", "rdflib"])
+    stmts, flags, sizes, _ = c01.gen_workload(rng, "GRAPHS", rdflib_safe=integration == "rdflib", max_n=14)
+    mp, mn, md = c01.fit_tables(rng, stmts, [], sizes, "GRAPHS")
+    if md == 0 and W.has_datatypes(stmts):
+        md = max(1, W.max_needs(stmts)[2])
+    cfg = nodes.default_cfg(integration=integration, physical="GRAPHS", logical=rng.choice([2, 4, 14]), delimited=True,
+                            frame_size=rng.choice([1, 3, 250]), max_names=mn, max_prefixes=mp, max_datatypes=md,
+                            generalized=flags["generalized"], rdf_star=flags["rdf_star"], entry="direct_graphs")
+    ops = [["stmt", *T.to_json(st)] for st in stmts]
+    if rng.random() < 0.7 and len(ops) >= 2:
+        ops.insert(rng.randint(1, len(ops) - 1), [rng.choice(["raise", "raise", "close"])])
+    return {"kind": "direct_graphs", "cfg": cfg, "ops": ops}
+
+
+class SourceFailed(Exception):
+    """The caller's own data source broke while a graph was being written."""
+
+
+def execute_direct_graphs(plan, sim):
+    import io
+    from pyjelly.serialize.ioutils import write_delimited
+    cfg = plan["cfg"]
+    sim.count("direct_graph_runs")
+    sim.count(cfg["integration"] + "_streams")
+    conv = T.to_generic if cfg["integration"] == "generic" else T.to_rdflib
+    # segments: runs of equal graph names; a fault op belongs to the segment it falls into
+    segs = []
+    for op in plan["ops"]:
+        if op[0] == "stmt":
+            st = T.from_json(op[1:])
+            if not segs or segs[-1][0] != st[3] or segs[-1][2]:
+                segs.append([st[3], [], False])
+            segs[-1][1].append(("stmt", st))
+        elif segs:
+            segs[-1][1].append((op[0],))
+            segs[-1][2] = True          # whatever follows starts a new graph() call
+    out = io.BytesIO()
+    written, interrupted, refused_later = [], None, 0
+    try:
+        stream = nodes.make_stream(cfg)
+        stream.enroll()
+    except Exception as e:  # noqa: BLE001
+        return [{"clause": "C03.serialize_raised", "sig": {"exc": type(e).__name__, "entry": "direct_graphs"},
+                 "msg": f"{type(e).__name__}: {e}"}], None
+    for g, items, _ in segs:
+        state = {"close": False}
+
+        def triples(items=items, state=state):
+            for it in items:
+                if it[0] == "raise":
+                    raise SourceFailed
+                if it[0] == "close":
+                    state["close"] = True
+                    continue
+                written.append(it[1])
+                yield [conv(t) for t in it[1][:3]]
+        gen = None
+        try:
+            gen = stream.graph(conv(g), triples())
+            for fr in gen:
+                write_delimited(fr, out)
+                if state["close"]:
+                    break
+            if state["close"]:
+                gen.close()         # the caller walks away from this graph (what a `break` + garbage collection do)
+                interrupted = "close"
+                sim.fault("generator_closed")
+        except SourceFailed:
+            interrupted = "raise"
+            sim.fault("source_failed")
+        except Exception as e:  # noqa: BLE001
+            if interrupted is None:
+                return [{"clause": "C03.serialize_raised", "sig": {"exc": type(e).__name__, "entry": "direct_graphs"},
+                         "msg": f"GraphStream.graph() raised {type(e).__name__}: {e}"}], None
+            refused_later += 1      # the stream refuses further use after the interrupted graph: fine
+            sim.event("graph_refused", type(e).__name__)
+    try:
+        fr = stream.flow.to_stream_frame()
+        if fr:
+            write_delimited(fr, out)
+    except Exception:  # noqa: BLE001
+        pass
+    if interrupted:
+        sim.count("direct_graph_interrupted")
+    if refused_later:
+        sim.count("direct_graph_refused_after_interruption")
+    data = out.getvalue()
+    r = refdec.decode_stream(data, True, strict=True)
+    key = (repr(sorted(cfg.items())), repr(plan["ops"])) if len(segs) >= 2 else None
+    if not r.ok:
+        e = r.error
+        return [{"clause": "C03.invalid_stream", "sig": {"cls": e["cls"], "entry": "direct_graphs"},
+                 "msg": f"after a graph interrupted by {interrupted}: reference decoder rejects the stream at frame "
+                        f"{e['frame']} row {e['row']}: {e['cls']}: {e['msg']}"}], key
+    v = []
+    a = r.audit
+    # a graph that was interrupted may stay open at the very end of what was written (a prefix ends where it ends);
+    # a graph_start INSIDE a graph that was never ended is what must not be written
+    if a["implicit_graph_close"] or (a["graph_open_at_end"] and not interrupted):
+        v.append({"clause": "C03.graph_not_bracketed", "sig": {"entry": "direct_graphs", "after": interrupted or "-"},
+                  "msg": f"graph() interrupted by {interrupted}; the caller carried on with the same stream "
+                         f"(refused {refused_later} later graphs): {a['implicit_graph_close']} graph_start rows inside an "
+                         f"open graph, open at end: {a['graph_open_at_end']}"})
+    return v, key
+
+
 def generate(rng, run, tier):
     if rng.random() < 0.08:
         return gen_direct(rng, run, tier)
+    if rng.random() < 0.05:
+        return gen_direct_graphs(rng, run, tier)
     if rng.random() < 0.12:
         # several containers written through one shared stream (grouped writes, incl. a shared GraphStream)
         from checks import c07
@@ -257,6 +371,8 @@ def execute(plan, sim):
     warnings.simplefilter("ignore")
     if plan.get("kind") == "direct":
         return execute_direct(plan, sim)
+    if plan.get("kind") == "direct_graphs":
+        return execute_direct_graphs(plan, sim)
     cfg = plan["cfg"]
     stmts, nss = nodes.split_ops(plan["ops"])
     sim.count(cfg["integration"] + "_streams")
